@@ -25,12 +25,36 @@ _TABLES = {}
 
 
 # ---------------------------------------------------------------------------------------------- running the code
-def tables():
+SCOPES = ('formula', 'matrix', 'override')
+PERMS = [('formula', 'matrix', 'override'), ('matrix', 'override', 'formula'), ('override', 'formula', 'matrix'),
+         ('override', 'matrix', 'formula'), ('matrix', 'formula', 'override'), ('formula', 'override', 'matrix')]
+
+
+def tables(markers=None):
+    """the three scopes the specification distinguishes: the default function tables of FormulaGrader and of
+    MatrixGrader, and an author's scope in which every default name is overridden by a user function that returns its
+    own marker (BuiltinFuncs!Marker), whatever it is given"""
     if not _TABLES:
         from mitxgraders import FormulaGrader, MatrixGrader
         _TABLES['formula'] = FormulaGrader.default_functions
         _TABLES['matrix'] = MatrixGrader.default_functions
+    if markers is not None and 'override' not in _TABLES:
+        def make(m):
+            def user_function(*args):
+                return m
+            user_function.validated = True          # does its own validation: any arguments are fine
+            return user_function
+        _TABLES['override'] = {name: make(float(markers.get(name, 9))) for name in _TABLES['matrix']}
     return _TABLES
+
+
+def history_for(k, orders):
+    """which order of scopes case number k is evaluated in: the six permutations in turn, every fourth case one of the
+    histories with repetitions enumerated by part 'order' followed by whatever scopes it leaves out"""
+    if orders and k % 4 == 3:
+        h = list(orders[(k // 4) % len(orders)])
+        return h + [sc for sc in PERMS[k % 6] if sc not in h]
+    return list(PERMS[k % 6])
 
 
 def text_of(toks):
@@ -141,10 +165,18 @@ def side(raw):
 
 def reduce_ident(rawl, rawr, rel):
     kl, zl = side(rawl)
-    o = {'l': kl, 'r': 'val', 'close': False, 'rege0': False, 'imin': False, 'err': 0.0}
+    o = {'l': kl, 'r': 'val', 'close': False, 'rege0': False, 'imin': False, 'err': 0.0, 'lq': [], 'rq': []}
+
+    def exact(z):
+        a, b = ratio(z.real), ratio(z.imag)
+        return [[a, b]] if a is not None and b is not None else []
+    if kl == 'val':
+        o['lq'] = exact(zl)
     if rel == 'eq':
         kr, zr = side(rawr)
         o['r'] = kr
+        if kr == 'val':
+            o['rq'] = exact(zr)
         if kl == 'val' and kr == 'val':
             o['err'] = abs(zl - zr) / max(1.0, abs(zl), abs(zr))
             o['close'] = o['err'] <= TOL
@@ -216,15 +248,19 @@ def side_fits(s, o):
 def accepts_ident(inst, o):
     if not side_fits(inst['sl'], o['l']):
         return False
-    if inst['rel'] == 'eq':
-        if not side_fits(inst['sr'], o['r']):
-            return False
-        if o['l'] == 'val' and o['r'] == 'val' and not o['close']:
-            return False
-    if inst['rel'] == 'rege0' and o['l'] == 'val' and not o['rege0']:
+    if inst['rel'] == 'eq' and not side_fits(inst['sr'], o['r']):
         return False
-    if inst['rel'] == 'imrange' and o['l'] == 'val' and not o['imin']:
-        return False
+    if inst['holds']:
+        if inst['rel'] == 'eq' and o['l'] == 'val' and o['r'] == 'val' and not o['close']:
+            return False
+        if inst['rel'] == 'rege0' and o['l'] == 'val' and not o['rege0']:
+            return False
+        if inst['rel'] == 'imrange' and o['l'] == 'val' and not o['imin']:
+            return False
+    else:                        # an author's scope: no relation is claimed, each side has its own exact value
+        for sd, x, q in (('l', inst['lx'], o['lq']), ('r', inst['rx'], o['rq'])):
+            if x['ex'] and o[sd] == 'val' and q != [[list(x['v'][0]), list(x['v'][1])]]:
+                return False
     return True
 
 
@@ -253,9 +289,13 @@ def describe(e):
     return {'offreal': 'the complex continuation or an error', 'underflow': '0 or an error'}.get(k, k)
 
 
-def call_class(c, e, o):
+def call_class(c, e, o, per=None, tb=None, raw=None):
     """stable class of a violation"""
     f = c.get('f') or c.get('name')
+    if per and tb:
+        for other in SCOPES:
+            if other != tb and per[other] != per[tb] and accepts(per[other], o, raw):
+                return 'scope-leak'             # the observation is what ANOTHER scope would have to give
     if f == 'arctan2' and any(c.get('nz', [])):
         return 'arctan2-negative-zero'
     if o['k'] == 'val' and allowed(e) == 'err':
@@ -273,79 +313,114 @@ def call_class(c, e, o):
 
 # ---------------------------------------------------------------------------------------------- spec -> code workers
 def replay_calls(states, extra):
+    """every case is a text; it is evaluated under all three scopes (order: history_for) in this process and each
+    evaluation is judged against the outcome the specification allows for THAT scope"""
     from engine import repo
     repo.activate()
+    tables(extra['markers'])
+    orders = extra.get('orders') or []
     n, keys, bad, sample = 0, set(), [], None
     drift = set()
+    k = extra.get('offset', 0)
     for st in states:
         c = st['c']
-        if c['kind'] in ('seed', 'seedconst', 'tmpl'):
+        if c['kind'] in ('seed', 'seedconst', 'tmpl', 'seedorder', 'markers'):
             continue
-        n += 1
-        e = st['out']['o']
         text = text_of(st['out']['toks'])
-        raw = evaluate(text, c['tb'])
-        o = reduce_call(raw)
-        keys.add((c['kind'], c['tb'], c.get('f') or c.get('name'), e['k'], o['k']))
-        if sample is None and c['kind'] != 'const':
-            sample = {'table': c['tb'], 'expr': text, 'allowed': describe(e), 'observed': show(raw)}
-        if not accepts(e, o, raw):
-            if len(bad) < 300:
-                bad.append({'kind': c['kind'], 'table': c['tb'], 'f': c.get('f') or c.get('name'), 'expr': text,
-                            'nz': c.get('nz', []), 'allowed': e, 'observed': show(raw),
-                            'class': call_class(c, e, o)})
-            else:
-                bad.append(None)
-        elif e['k'] == 'err' and o['k'] == 'err':
-            want = {'argcount': 'ArgumentError', 'argshape': 'ArgumentShapeError',
-                    'undefined': 'UndefinedFunction'}.get(e['why'])
-            if want and o.get('cls') != want and not (c.get('f') == 'abs' and e['why'] == 'argshape'):
-                drift.add('%s(...) with %s raised %s, the model of the implementation says %s'
-                          % (c.get('f'), e['why'], o.get('cls'), want))
+        f = c.get('f') or c.get('name')
+        if c['kind'] == 'order':
+            f = 'history'
+            hist = list(c['h'])
+            per_step = list(st['out']['run'])
+            per = None
+        else:
+            k += 1
+            hist = history_for(k, orders)
+            per = st['out']['o']
+            per_step = [per[tb] for tb in hist]
+        for step, (tb, e) in enumerate(zip(hist, per_step)):
+            n += 1
+            raw = evaluate(text, tb)
+            o = reduce_call(raw)
+            keys.add((c['kind'], tb, f, e['k'], o['k']))
+            if sample is None and c['kind'] not in ('const', 'order') and tb == 'formula':
+                sample = {'table': tb, 'expr': text, 'allowed': describe(e), 'observed': show(raw), 'history': hist}
+            if not accepts(e, o, raw):
+                if len(bad) < 300:
+                    cls = call_class(c, e, o, per, tb, raw) if per else 'scope-leak'
+                    bad.append({'kind': c['kind'], 'table': tb, 'f': f, 'expr': text, 'history': hist[:step + 1],
+                                'nz': c.get('nz', []), 'allowed': e, 'observed': show(raw), 'class': cls})
+                else:
+                    bad.append(None)
+            elif e['k'] == 'err' and o['k'] == 'err':
+                want = {'argcount': 'ArgumentError', 'argshape': 'ArgumentShapeError',
+                        'undefined': 'UndefinedFunction'}.get(e['why'])
+                if want and o.get('cls') != want and not (c.get('f') == 'abs' and e['why'] == 'argshape'):
+                    drift.add('%s(...) with %s raised %s, the model of the implementation says %s'
+                              % (c.get('f'), e['why'], o.get('cls'), want))
     return {'n': n, 'keys': sorted(keys), 'bad': bad, 'sample': sample, 'drift': sorted(drift)}
 
 
 def replay_idents(states, extra):
-    """identity instances; the four constants travel in the same dump and are judged like calls"""
+    """identity instances, both sides under all three scopes; the four constants travel in the same dump and are judged
+    like calls"""
     from engine import repo
     repo.activate()
+    tables(extra['markers'])
+    orders = extra.get('orders') or []
     n, keys, bad, sample = 0, set(), [], None
     worst = {}
     consts = []
+    k = extra.get('offset', 0)
     for st in states:
         c = st['c']
         if c['kind'] == 'const':
             consts.append(st)
         if c['kind'] != 'ident':
             continue
-        n += 1
+        k += 1
         out = st['out']
         lt = text_of(out['ltoks'])
         rt = text_of(out['rtoks']) if out['rel'] == 'eq' else ''
-        rawl = evaluate(lt, c['tb'])
-        rawr = evaluate(rt, c['tb']) if out['rel'] == 'eq' else None
-        o = reduce_ident(rawl, rawr, out['rel'])
-        keys.add((c['id'], c['tb'], out['sl'], out['sr'], o['l'], o['r']))
-        if o['l'] == 'val' and o['r'] == 'val' and out['rel'] == 'eq':
-            worst[c['id']] = max(worst.get(c['id'], 0.0), o['err'])
-        if sample is None and out['rel'] == 'eq':
-            sample = {'identity': c['id'], 'table': c['tb'], 'lhs': lt, 'rhs': rt, 'relation': out['rel'],
-                      'observed': [show(rawl), show(rawr)]}
-        if not accepts_ident(out, o):
-            if len(bad) < 300:
-                bad.append({'kind': 'ident', 'table': c['tb'], 'identity': c['id'], 'lhs': lt, 'rhs': rt, 'rel': out['rel'],
-                            'sl': out['sl'], 'sr': out['sr'],
-                            'observed': [show(rawl), show(rawr) if rawr else None],
-                            'class': 'identity:%s' % c['id']})
+        hist = history_for(k, orders)
+        for step, tb in enumerate(hist):
+            n += 1
+            inst = dict(out['per'][tb], rel=out['rel'])
+            # the two sides in either order: a remembered value of one side must not reach the other either
+            if (k + step) % 2:
+                rawr = evaluate(rt, tb) if out['rel'] == 'eq' else None
+                rawl = evaluate(lt, tb)
             else:
-                bad.append(None)
+                rawl = evaluate(lt, tb)
+                rawr = evaluate(rt, tb) if out['rel'] == 'eq' else None
+            o = reduce_ident(rawl, rawr, out['rel'])
+            keys.add((c['id'], tb, inst['sl'], inst['sr'], o['l'], o['r']))
+            if tb != 'override' and o['l'] == 'val' and o['r'] == 'val' and out['rel'] == 'eq':
+                worst[c['id']] = max(worst.get(c['id'], 0.0), o['err'])
+            if sample is None and out['rel'] == 'eq' and tb == 'formula':
+                sample = {'identity': c['id'], 'table': tb, 'lhs': lt, 'rhs': rt, 'relation': out['rel'],
+                          'observed': [show(rawl), show(rawr)], 'history': hist}
+            if not accepts_ident(inst, o):
+                if len(bad) < 300:
+                    leak = any(other != tb and out['per'][other] != out['per'][tb]
+                               and accepts_ident(dict(out['per'][other], rel=out['rel']), o) for other in SCOPES)
+                    bad.append({'kind': 'ident', 'table': tb, 'identity': c['id'], 'lhs': lt, 'rhs': rt, 'rel': out['rel'],
+                                'inst': inst, 'history': hist[:step + 1],
+                                'observed': [show(rawl), show(rawr) if rawr else None],
+                                'class': 'scope-leak' if leak else 'identity:%s' % c['id']})
+                else:
+                    bad.append(None)
     rc = replay_calls(consts, extra)
     return {'n': n + rc['n'], 'keys': sorted(keys), 'bad': bad + rc['bad'], 'sample': sample, 'worst': worst,
             'const_keys': rc['keys']}
 
 
+def read_orders(states, extra):
+    return [list(st['c']['h']) for st in states if st['c']['kind'] == 'order']
+
+
 def read_templates(states, extra):
-    return [st['out'] for st in states if st['c']['kind'] == 'tmpl']
+    return [st['out'] for st in states if st['c']['kind'] in ('tmpl', 'markers')]
 
 
 # ---------------------------------------------------------------------------------------------- random driver (code -> spec)
@@ -458,8 +533,8 @@ NATURAL = {'arctan2': ['scalar', 'scalar'], 'kronecker': ['scalar', 'scalar'], '
 
 
 def rand_call(rng, i):
-    tb = rng.choice(['formula', 'matrix', 'matrix'])
-    names = FORMULA_NAMES + (MATRIX_NAMES * 3 if tb == 'matrix' else ['det', 'norm'])
+    tb = 'matrix'                                 # (every text meets all three scopes; names of both tables)
+    names = FORMULA_NAMES + MATRIX_NAMES * 2
     f = rng.choice(names)
     if rng.random() < 0.02:
         f = rng.choice(['sinc', 'Cos', 'arcsine', 'transpose'])
@@ -576,7 +651,7 @@ def rand_ident(rng, i, templates):
         if pt is None:
             continue
         z, w = pt
-        tb = rng.choice(['formula', 'matrix'])
+        tb = 'formula'
 
         def build(toks):
             parts = []
@@ -594,25 +669,25 @@ def rand_ident(rng, i, templates):
 
 
 def observe_chunk(cases, extra):
+    """each generated text is evaluated under all three scopes, in the order drawn for it; one record per scope"""
     from engine import repo
     repo.activate()
+    tables(extra['markers'])
     recs = []
     for c in cases:
-        c = dict(c)
-        if c['ev'] == 'call':
-            raw = evaluate(c['text'], c['tb'])
-            c['obs'] = reduce_call(raw)
-            c['shown'] = show(raw)
-        elif c['ev'] == 'const':
-            raw = evaluate(c['name'], c['tb'])
-            c['obs'] = reduce_call(raw)
-            c['shown'] = show(raw)
-        else:
-            rawl = evaluate(c['ltext'], c['tb'])
-            rawr = evaluate(c['rtext'], c['tb']) if c['rel'] == 'eq' else None
-            c['obs'] = reduce_ident(rawl, rawr, c['rel'])
-            c['shown'] = [show(rawl), show(rawr) if rawr else None]
-        recs.append(c)
+        for tb, rid in zip(c['order'], c['ids']):
+            r = {k: v for k, v in c.items() if k not in ('order', 'ids')}
+            r['id'], r['tb'], r['history'] = rid, tb, c['order'][:c['order'].index(tb) + 1]
+            if c['ev'] in ('call', 'const'):
+                raw = evaluate(c['text'] if c['ev'] == 'call' else c['name'], tb)
+                r['obs'] = reduce_call(raw)
+                r['shown'] = show(raw)
+            else:
+                rawl = evaluate(c['ltext'], tb)
+                rawr = evaluate(c['rtext'], tb) if c['rel'] == 'eq' else None
+                r['obs'] = reduce_ident(rawl, rawr, c['rel'])
+                r['shown'] = [show(rawl), show(rawr) if rawr else None]
+            recs.append(r)
     return recs
 
 
@@ -630,17 +705,21 @@ def class_tree():
 
 # ---------------------------------------------------------------------------------------------- run
 def _violate(ctx, b):
+    hist = ' after '.join(reversed(b.get('history') or [b['table']]))
     if b['kind'] == 'ident':
+        inst = b.get('inst') or {}
         sig = {'kind': 'ident', 'table': b['table'], 'identity': b['identity'], 'lhs': b['lhs'], 'rhs': b['rhs'],
-               'rel': b['rel'], 'sl': b['sl'], 'sr': b['sr'], 'observed': b['observed'], 'class': b['class']}
-        ctx.violation(sig, 'identity %s (%s table): %s %s %s  with statuses %s/%s; code gave %s'
-                      % (b['identity'], b['table'], b['lhs'].replace('\t', ''), b['rel'], b['rhs'].replace('\t', ''),
-                         b['sl'], b['sr'], b['observed']))
+               'rel': b['rel'], 'inst': inst, 'history': b.get('history'), 'observed': b['observed'], 'class': b['class']}
+        ctx.violation(sig, 'identity %s (scope %s): %s %s %s  with statuses %s/%s%s; code gave %s'
+                      % (b['identity'], hist, b['lhs'].replace('\t', ''), b['rel'], b['rhs'].replace('\t', ''),
+                         inst.get('sl'), inst.get('sr'), '' if inst.get('holds', True) else ' (values of the overriding functions)',
+                         b['observed']))
     else:
         sig = {'kind': b['kind'], 'table': b['table'], 'f': b['f'], 'expr': b['expr'], 'allowed': b['allowed'],
-               'observed': b['observed'], 'class': b['class']}
-        ctx.violation(sig, '%s with the %s table: spec allows %s; code gave %s'
-                      % (b['expr'].replace('\t', ''), b['table'], describe(b['allowed']), b['observed']))
+               'history': b.get('history'), 'observed': b['observed'], 'class': b['class']}
+        ctx.violation(sig, '%s in scope %s: spec allows %s; code gave %s'
+                      % (b['expr'].replace('\t', ''), hist,
+                         describe(b['allowed']) if isinstance(b['allowed'], dict) else b['allowed'], b['observed']))
 
 
 def run(ctx):
@@ -649,11 +728,35 @@ def run(ctx):
     from engine.main import Machinery
     reached = set()
     worst = {}
-    for part in PARTS:
-        d = os.path.join(ctx.scratch, 'cases_' + part)
-        ctx.tlc(SPEC, 'arrays/MC_BuiltinFuncs_%s_%s.cfg' % (part, ctx.tier), dump=d, timeout=3000)
+    # ---- identity templates and the markers of the overriding scope; the histories of part "order"
+    d = os.path.join(ctx.scratch, 'tmpl')
+    ctx.tlc(SPEC, 'arrays/MC_BuiltinFuncs_tmpl.cfg', dump=d, timeout=600)
+    tm = [t for chunk in dump.parallel(d + '.dump', 'engine.adapters.c15', 'read_templates', procs=1,
+                                       chunks_per_proc=1) for t in chunk]
+    os.remove(d + '.dump')
+    templates = sorted((t for t in tm if 'id' in t), key=lambda t: t['id'])
+    markers = [t['markers'] for t in tm if 'markers' in t]
+    if len(templates) < 100 or len(markers) != 1 or len(set(markers[0].values())) != len(markers[0]):
+        raise Machinery('identity templates / markers could not be read (%d, %d)' % (len(templates), len(markers)))
+    markers = markers[0]
+    r = ctx.tlc(SPEC, 'arrays/MC_BuiltinFuncs_order_flaw.cfg', must_hold=False, timeout=600)
+    if 'LawOrderFlaw' not in r.violated:
+        raise Machinery('vacuity guard: a memo keyed by the text alone does not violate history independence in the model')
+    ctx.extra['model_variants_violating'] = {'memo keyed by text only': 'LawMemoRefines'}
+    d = os.path.join(ctx.scratch, 'cases_order')
+    ctx.tlc(SPEC, 'arrays/MC_BuiltinFuncs_order_%s.cfg' % ctx.tier, dump=d, timeout=600)
+    orders = sorted(set(tuple(h) for chunk in dump.parallel(d + '.dump', 'engine.adapters.c15', 'read_orders', procs=1,
+                                                          chunks_per_proc=1) for h in chunk))
+    orders = [list(h) for h in orders if len(h) >= 2 and len(set(h)) >= 2]
+    if len(orders) < 20:
+        raise Machinery('histories could not be read (%d)' % len(orders))
+    extra = {'markers': markers, 'orders': orders}
+    for part in ['order'] + PARTS:
+        if part != 'order':
+            d = os.path.join(ctx.scratch, 'cases_' + part)
+            ctx.tlc(SPEC, 'arrays/MC_BuiltinFuncs_%s_%s.cfg' % (part, ctx.tier), dump=d, timeout=3000)
         fn = 'replay_idents' if part == 'ident' else 'replay_calls'
-        res = dump.parallel(d + '.dump', 'engine.adapters.c15', fn)
+        res = dump.parallel(d + '.dump', 'engine.adapters.c15', fn, extra=extra)
         os.remove(d + '.dump')
         for r in res:
             ctx.traces_validated += r['n']
@@ -674,36 +777,44 @@ def run(ctx):
                 worst[k] = max(worst.get(k, 0.0), v)
 
     # ---- code -> spec
-    d = os.path.join(ctx.scratch, 'tmpl')
-    ctx.tlc(SPEC, 'arrays/MC_BuiltinFuncs_tmpl.cfg', dump=d, timeout=600)
-    templates = [t for chunk in dump.parallel(d + '.dump', 'engine.adapters.c15', 'read_templates', procs=1,
-                                              chunks_per_proc=1) for t in chunk]
-    os.remove(d + '.dump')
-    if len(templates) < 100:
-        raise Machinery('identity templates could not be read (%d)' % len(templates))
-    templates.sort(key=lambda t: t['id'])
-    n_calls, n_idents = (2500, 2500) if ctx.quick else (12000, 12000)
-    cases = [{'ev': 'const', 'id': 1 + j, 'tb': tb, 'name': nm}
-             for j, (tb, nm) in enumerate((tb, nm) for tb in ('formula', 'matrix') for nm in ('i', 'j', 'e', 'pi'))]
-    base = len(cases) + 1
+    n_calls, n_idents = (850, 850) if ctx.quick else (4000, 4000)
+    rng = ctx.rng
+    cases = [{'ev': 'const', 'name': nm} for nm in ('i', 'j', 'e', 'pi')]
     for i in range(n_calls):
-        cases.append(rand_call(ctx.rng, base + i))
-    base += n_calls
+        cases.append(rand_call(rng, 0))
     for i in range(n_idents):
-        cases.append(rand_ident(ctx.rng, base + i, templates))
-    recs = [r for chunk in dump.pmap('engine.adapters.c15', 'observe_chunk', cases) for r in chunk]
+        cases.append(rand_ident(rng, 0, templates))
+    nid = 0
+    for c in cases:                                  # three records per text, one per scope, in a drawn order
+        c.pop('id', None)
+        c.pop('tb', None)
+        c['order'] = list(rng.choice(PERMS))
+        c['ids'] = [nid + 1, nid + 2, nid + 3]
+        nid += 3
+    recs = [r for chunk in dump.pmap('engine.adapters.c15', 'observe_chunk', cases, extra=extra) for r in chunk]
     meta = {'ev': 'meta', 'id': 0, 'seed': ctx.seed, 'tier': ctx.tier, 'tree': class_tree()}
-    drop = ('text', 'ltext', 'rtext', 'shown', 'rel')
+    drop = ('text', 'ltext', 'rtext', 'shown', 'rel', 'history')
     slim = [meta] + [{k: v for k, v in r.items() if k not in drop} for r in recs]
     for r in slim[1:]:
         r['obs'] = {k: v for k, v in r['obs'].items() if k not in ('cls', 'err')}
-    rej = traces.validate(ctx, 'arrays/BuiltinFuncsTrace.tla', 'arrays/BuiltinFuncsTrace.cfg', slim, timeout=3000)
+    # the trace specification judges every record on its own, so the trace is validated in slices by several TLC
+    # processes side by side (one worker each); the meta record travels with the first slice
+    from concurrent.futures import ThreadPoolExecutor
+    nsl = 8
+    slices = [slim[j::nsl] for j in range(nsl)]          # interleaved: calls and identities in every slice
+    with ThreadPoolExecutor(len(slices)) as pool:
+        parts = list(pool.map(lambda js: traces.validate(ctx, 'arrays/BuiltinFuncsTrace.tla', 'arrays/BuiltinFuncsTrace.cfg',
+                                                         js[1], name='trace%d' % js[0], timeout=3000),
+                              enumerate(slices)))
+    rej = {}
+    for part_rej in parts:
+        rej.update(part_rej)
     ctx.evaluations += len(recs)
     byid = {r['id']: r for r in recs}
-    for r in recs[8:10] + recs[-2:]:
-        ctx.sample({'trace_record': {k: v for k, v in r.items() if k != 'obs'}}, limit=12)
+    for r in recs[12:15] + recs[-3:]:
+        ctx.sample({'trace_record': {k: v for k, v in r.items() if k != 'obs'}}, limit=14)
     for r in recs:
-        ctx.nontrivial.add(('trace', r['ev'], r.get('f') or r.get('name'), r['obs'].get('k') or r['obs'].get('l')))
+        ctx.nontrivial.add(('trace', r['ev'], r['tb'], r.get('f') or r.get('name'), r['obs'].get('k') or r['obs'].get('l')))
     for i, clause in rej.items():
         if i == 0:
             ctx.note_drift('the exception class tree differs from the one recorded in BuiltinFuncsTrace!ErrParents')
@@ -715,24 +826,25 @@ def run(ctx):
             sl, _, rest = clause.partition('/')
             sr, _, rel = rest.partition(':')
             _violate(ctx, {'kind': 'ident', 'table': r['tb'], 'identity': r['name'], 'lhs': r['ltext'], 'rhs': r['rtext'],
-                           'rel': rel, 'sl': sl, 'sr': sr, 'observed': r['shown'], 'class': 'identity:%s' % r['name']})
+                           'rel': rel, 'inst': {'sl': sl, 'sr': sr, 'holds': r['tb'] != 'override'}, 'history': r['history'],
+                           'observed': r['shown'], 'class': 'identity:%s' % r['name']})
         else:
             f = r.get('f') or r['name']
             o = r['obs']
             a, _, k = clause.partition(':')
             fake = {'k': 'err', 'why': 'required'} if a == 'err' else {'k': k}
             cls = call_class({'f': f}, fake, o) if clause != 'const' else 'constant:%s' % f
-            sig = {'kind': 'trace-' + r['ev'], 'table': r['tb'], 'f': f, 'expr': r.get('text', f),
-                   'allowed': clause, 'observed': r['shown'], 'class': cls}
-            ctx.violation(sig, '%s with the %s table: spec allows %s; code gave %s'
-                          % (r.get('text', f), r['tb'], clause, r['shown']))
+            _violate(ctx, {'kind': 'trace-' + r['ev'], 'table': r['tb'], 'f': f, 'expr': r.get('text', f),
+                           'allowed': clause, 'history': r['history'], 'observed': r['shown'], 'class': cls})
     ctx.extra['outcome_classes_reached'] = sorted(reached)[:200]
     ctx.extra['worst_relative_error_per_identity'] = {k: float('%.3g' % v) for k, v in sorted(worst.items())}
     ctx.extra['bounds'] = {'tier': ctx.tier, 'grid_axis_values': 7 if ctx.quick else 15,
                            'grid_extremes': '1e-6 .. 1e6 on both axes, 709/711 at the overflow edge, 1e-3 off cuts and poles',
                            'matrix_sizes': 'vectors 2-3, matrices 2x2, 2x3, 3x2, 3x3 (TLC); up to 4x4 / length 5 (random)',
                            'identities': len(templates), 'tolerance': TOL,
-                           'random_call_records': n_calls, 'random_identity_records': n_idents}
+                           'scopes': list(SCOPES), 'histories_per_text': 'the 6 orders of the 3 scopes in turn, every '
+                           '4th text one of the %d TLC-enumerated histories with repetitions' % len(orders),
+                           'random_call_texts': n_calls, 'random_identity_texts': n_idents}
     ctx.assumptions += [
         'accuracy of numpy primitives (sin, exp, arctan, ...) is trusted: identities relate library functions to each other',
         'factorial / fact excluded (scipy absent)',
@@ -742,21 +854,35 @@ def run(ctx):
         'cosh, ...) are not generated',
         '0-d numpy arrays are read as numbers (trans(5) returns one)',
         'rank-3 tensors as arguments are not generated',
+        'history independence is exercised per worker process (each holds its own parser cache): a text meets the three '
+        'scopes within one process, in the enumerated orders',
     ]
 
 
 def replay(ctx, rec):
-    from engine import repo
+    """re-run the failing text under the recorded history of scopes (the last one is the judged one)"""
+    from engine import repo, tlc as T, dump as D
     repo.activate()
     sig = rec['signature']
-    print('signature:', {k: v for k, v in sig.items() if k != 'allowed'})
+    d = os.path.join(ctx.scratch, 'tmpl')
+    ctx.tlc(SPEC, 'arrays/MC_BuiltinFuncs_tmpl.cfg', dump=d, timeout=600)
+    tm = [t for chunk in D.parallel(d + '.dump', 'engine.adapters.c15', 'read_templates', procs=1, chunks_per_proc=1)
+          for t in chunk]
+    tables([t['markers'] for t in tm if 'markers' in t][0])
+    print('signature:', {k: v for k, v in sig.items() if k not in ('allowed', 'inst')})
+    hist = sig.get('history') or [sig['table']]
     if sig['kind'] == 'ident':
-        rawl = evaluate(sig['lhs'], sig['table'])
-        rawr = evaluate(sig['rhs'], sig['table']) if sig['rel'] == 'eq' else None
+        for tb in hist:
+            rawl = evaluate(sig['lhs'], tb)
+            rawr = evaluate(sig['rhs'], tb) if sig['rel'] == 'eq' else None
         o = reduce_ident(rawl, rawr, sig['rel'])
         print('observed now:', show(rawl), show(rawr) if rawr else None, o)
-        return accepts_ident(sig, o)
-    raw = evaluate(sig['expr'], sig['table'])
+        inst = dict(sig['inst'], rel=sig['rel'])
+        inst.setdefault('lx', {'ex': False})
+        inst.setdefault('rx', {'ex': False})
+        return accepts_ident(inst, o)
+    for tb in hist:
+        raw = evaluate(sig['expr'], tb)
     o = reduce_call(raw)
     print('observed now:', show(raw))
     if isinstance(sig['allowed'], dict):
